@@ -130,6 +130,11 @@ func (c *linCtx) valueKey(v ssa.Value) string {
 		}
 	case *ssa.ChangeType:
 		return c.valueKey(x.X)
+	case *ssa.UnOp:
+		// the value of a package-level variable that nothing writes after initialisation is one value everywhere
+		if g, ok := x.X.(*ssa.Global); ok && x.Op == token.MUL && g.Pkg != nil && inModule(g.Pkg.Func("init")) && c.p.initFrozen(g) {
+			return "g:" + g.Pkg.Pkg.Path() + "." + g.Name()
+		}
 	}
 	return fmt.Sprintf("%s@%p", v.Name(), v)
 }
@@ -456,6 +461,11 @@ func (c *linCtx) atomFacts(done map[string]bool) bool {
 			}
 		}
 		if call, ok := v.(*ssa.Call); ok {
+			// sort.Search(n, f) returns an index in 0..n (documented)
+			if f := call.Call.StaticCallee(); f != nil && calleeName(f) == "sort.Search" && len(call.Call.Args) == 2 {
+				nonneg()
+				c.fact(self.sub(c.lin(call.Call.Args[0], 0)))
+			}
 			if b, ok := call.Call.Value.(*ssa.Builtin); ok && b.Name() == "copy" {
 				nonneg()
 				for _, a := range call.Call.Args {
@@ -640,7 +650,41 @@ var paramNonNegMemo = map[*ssa.Parameter]int{} // 1 yes 2 no 3 in progress (assu
 // argument. Calls from inside the function itself (and cycles) are assumed: together with the proof for the
 // outside callers this is an induction over the call depth.
 func (c *linCtx) paramFacts(prm *ssa.Parameter, self *linExpr) {
-	if !isIntType(prm.Type()) || unsignedInt(prm.Type()) {
+	if !isIntType(prm.Type()) {
+		return
+	}
+	// the predicate handed to sort.Search(n, f) is called with 0 <= i < n only (documented)
+	if fn := prm.Parent(); fn != nil && fn.Parent() != nil && len(fn.Params) == 1 {
+		for _, b := range fn.Parent().Blocks {
+			for _, in := range b.Instrs {
+				call, ok := in.(*ssa.Call)
+				if !ok || len(call.Call.Args) != 2 {
+					continue
+				}
+				if f := call.Call.StaticCallee(); f == nil || calleeName(f) != "sort.Search" {
+					continue
+				}
+				if mc, ok := call.Call.Args[1].(*ssa.MakeClosure); ok && mc.Fn == ssa.Value(fn) {
+					c.fact(newLin(0).sub(self))
+					// n as seen from inside the closure: only when it is expressed over values available there
+					n := call.Call.Args[0]
+					if nc, ok := n.(*ssa.Call); ok {
+						if bi, ok := nc.Call.Value.(*ssa.Builtin); ok && bi.Name() == "len" {
+							if ld, ok := nc.Call.Args[0].(*ssa.UnOp); ok {
+								if _, isG := ld.X.(*ssa.Global); isG {
+									c.fact(self.sub(c.lin(n, 0)).addConst(1))
+								}
+							}
+						}
+					}
+					if k, ok := constInt(n); ok {
+						c.fact(self.addConst(1 - k))
+					}
+				}
+			}
+		}
+	}
+	if unsignedInt(prm.Type()) {
 		return
 	}
 	if c.paramNonNeg(prm) {
